@@ -116,6 +116,8 @@ fn event_member(e: &'static Engine, api: Api, d_ns: u64, at_ns: u64) {
     rt_init(2);
     e.begin();
     static DT: AtomicU64 = AtomicU64::new(0);
+    static RET_ABS: AtomicU64 = AtomicU64::new(0);
+    static EV_ABS: AtomicU64 = AtomicU64::new(0);
     let d = Duration::from_nanos(d_ns);
     let sem = Arc::new(Semphore::new(0));
     let (tx, rx) = mpsc::channel::<u32>();
@@ -127,11 +129,14 @@ fn event_member(e: &'static Engine, api: Api, d_ns: u64, at_ns: u64) {
             Api::MpscRecvTimeout => rx.recv_timeout(d).is_ok(),
             _ => unreachable!(),
         };
-        DT.store(may::verif::now() - t0, Ordering::SeqCst);
+        let t1 = may::verif::now();
+        DT.store(t1 - t0, Ordering::SeqCst);
+        RET_ABS.store(t1, Ordering::SeqCst);
         got
     });
     let ev = go!(move || {
         coroutine::sleep(Duration::from_nanos(at_ns));
+        EV_ABS.store(may::verif::now(), Ordering::SeqCst);
         match api {
             Api::SemWaitTimeout => sem.post(),
             _ => {
@@ -145,8 +150,10 @@ fn event_member(e: &'static Engine, api: Api, d_ns: u64, at_ns: u64) {
     if !got && dt < d_ns {
         e.fail("fired_early", &format!("{:?}({} ns) timed out after only {} ns", api, d_ns, dt));
     }
-    if got && dt + MS < at_ns {
-        e.fail("event_before_event", &format!("the wait returned its event after {} ns but the event only happened at {} ns", dt, at_ns));
+    // (absolute stamps of the one virtual clock: with clock deviations the waiter may only start after the event)
+    let (ret_abs, ev_abs) = (RET_ABS.load(Ordering::SeqCst), EV_ABS.load(Ordering::SeqCst));
+    if got && (ev_abs == 0 || ret_abs < ev_abs) {
+        e.fail("event_before_event", &format!("the wait returned its event at {} ns but the event only happened at {} ns (0 = never)", ret_abs, ev_abs));
     }
     if !got && at_ns + MS < d_ns && !e.t2_used() {
         e.fail("event_missed", &format!("the event happened at {} ns, well before the timeout of {} ns, but the wait reported a timeout", at_ns, d_ns));
